@@ -35,7 +35,7 @@ VarSet(c) == {c.vars[i] : i \in 1..Len(c.vars)}
 InitialM(c) ==
     [cfg |-> {}, hist |-> [h \in Histories(c) |-> {}], inited |-> {},
      dm |-> [n \in VarSet(c) |-> [def |-> FALSE, v |-> 0]],
-     iq |-> <<>>, eq |-> <<>>, atoms |-> <<>>, ok |-> TRUE, topfinal |-> FALSE, condErr |-> {}]
+     iq |-> <<>>, eq |-> <<>>, dq |-> <<>>, atoms |-> <<>>, ok |-> TRUE, topfinal |-> FALSE, condErr |-> {}]
 
 InitFor(i) ==
     /\ ci = i
@@ -226,6 +226,14 @@ EnvReceive(name) ==
     /\ m' = [m EXCEPT !.eq = Append(@, Ev(name))]
     /\ UNCHANGED <<ci, life, flags, ret, rootEntries>>
 
+\* the timer of the i-th pending delayed <send> fires (timer thread): the event joins the external queue.
+\* Enabled at any time -- the specification says nothing about real time (C09 has its own timed model).
+FireAt(M, i) == [M EXCEPT !.dq = SubSeq(@, 1, i - 1) \o SubSeq(@, i + 1, Len(@)),
+                          !.eq = Append(@, M.dq[i])]
+EnvFire ==
+    /\ \E i \in 1..Len(m.dq) : m' = FireAt(m, i)
+    /\ UNCHANGED <<ci, life, flags, ret, rootEntries>>
+
 \* Interpreter::cancel(): mark, and wake a blocked step() with an empty event
 EnvCancel ==
     /\ TRUE      \* in every life-cycle state
@@ -242,7 +250,7 @@ EnvReset ==
 
 \* C14: serialize() at a stable point and deserialize() into a fresh interpreter for the same
 \* document.  Every abstract variable is unchanged -- configuration, history, initialised
-\* data, data values, pending external events.  Only the "stable configuration announced"
+\* data, data values, pending external events, pending delayed events (dq).  Only the "stable configuration announced"
 \* flag is not part of the snapshot: the resumed interpreter announces it once more.
 EnvResume ==
     /\ life = "running" /\ "SPONT" \notin flags /\ m.iq = <<>> /\ "TOPFINAL" \notin flags
